@@ -399,8 +399,58 @@ func hDeleteByIndex(c *core.Ctx, R string) {
 			}
 		}
 	}
+	// the membership test: `_, ok := set[k]`, or a module helper that does exactly that
+	var memKey, memOK ssa.Value
+	var memInstr ssa.Instruction
+	if look != nil && look.CommaOk {
+		memKey, memOK, memInstr = look.Index, extractOf(look, 1), look
+	} else {
+		for _, b := range fn.Blocks {
+			for _, in := range b.Instrs {
+				call, ok := in.(*ssa.Call)
+				if !ok || !isBoolType(call.Type()) {
+					continue
+				}
+				h := call.Call.StaticCallee()
+				if h != nil && h.Origin() != nil {
+					h = h.Origin() // an instance of a generic helper: its generic body
+				}
+				if h == nil || len(h.Blocks) == 0 || !core.IsModPath(core.FuncPkgPath(h)) || len(call.Call.Args) != 2 || len(h.Params) != 2 {
+					continue
+				}
+				mi, ki := -1, -1
+				for i, a := range call.Call.Args {
+					if resolveValue(a) == set {
+						mi = i
+					}
+				}
+				if mi < 0 {
+					continue
+				}
+				ki = 1 - mi
+				okHelper := false
+				for _, hb := range h.Blocks {
+					for _, hin := range hb.Instrs {
+						if lk, isLk := hin.(*ssa.Lookup); isLk && lk.CommaOk && resolveValue(lk.X) == ssa.Value(h.Params[mi]) && resolveValue(lk.Index) == ssa.Value(h.Params[ki]) {
+							okHelper = true
+							for _, hb2 := range h.Blocks {
+								for _, hin2 := range hb2.Instrs {
+									if ret, isRet := hin2.(*ssa.Return); isRet && (len(ret.Results) != 1 || resolveValue(ret.Results[0]) != extractOf(lk, 1)) {
+										okHelper = false
+									}
+								}
+							}
+						}
+					}
+				}
+				if okHelper {
+					memKey, memOK, memInstr = call.Call.Args[ki], call, call
+				}
+			}
+		}
+	}
 	why := ""
-	if app == nil || napp != 1 || look == nil || !look.CommaOk {
+	if app == nil || napp != 1 || memInstr == nil {
 		why = "expected one append and one membership test on the index set"
 	} else {
 		elems := sliceLitElems(app.Call.Args[1])
@@ -415,12 +465,12 @@ func hDeleteByIndex(c *core.Ctx, R string) {
 			why = "the index of the kept element is not the counter of a loop over the whole slice"
 		default:
 			// the key looked up is i + off for the same i
-			key, ok := resolveValue(look.Index).(*ssa.BinOp)
+			key, ok := resolveValue(memKey).(*ssa.BinOp)
 			if !ok || key.Op != token.ADD || !((resolveValue(key.X) == resolveValue(src.Index) && resolveValue(key.Y) == off) || (resolveValue(key.Y) == resolveValue(src.Index) && resolveValue(key.X) == off)) {
 				why = "the index set is not asked about i + offset for the element's own i"
 			}
 			// appended exactly when the key is absent
-			okV := extractOf(look, 1)
+			okV := memOK
 			if why == "" && okV != nil {
 				var gi *ssa.If
 				for _, b := range fn.Blocks {
@@ -436,8 +486,8 @@ func hDeleteByIndex(c *core.Ctx, R string) {
 							return k == 0
 						}
 						return b != gi.Block() || true
-					}, Barrier: func(in ssa.Instruction) bool { return in == ssa.Instruction(look) }}.Run()
-					absentSkips, _ := core.Search{Fn: fn, From: gi, Target: func(in ssa.Instruction) bool { return in == ssa.Instruction(look) || core.IsReturn(in) }, Barrier: instrIs(app), Edge: func(b *ssa.BasicBlock, k int) bool {
+					}, Barrier: func(in ssa.Instruction) bool { return in == memInstr }}.Run()
+					absentSkips, _ := core.Search{Fn: fn, From: gi, Target: func(in ssa.Instruction) bool { return in == memInstr || core.IsReturn(in) }, Barrier: instrIs(app), Edge: func(b *ssa.BasicBlock, k int) bool {
 						if core.BlockIf(b) == gi {
 							return k == 1
 						}
